@@ -1,5 +1,58 @@
-/- C09 — placeholder until the theorems are in; not claimed in MANIFEST.json while this comment stands. -/
+/-
+C09 — Messages and units are isolated: nothing but status and errors carries over.
+Property theorems only; helper lemmas in ScpiVerif/Lemmas/Isolation.lean.
+
+Two contexts are related (`Rel`) when they agree on everything that is MEANT to persist: command
+table, input-buffer size and the bytes currently pending in it, status registers, and the error
+queue as an abstract FIFO (ring positions and allocation identities may differ).  Every other field
+of the context — output_count, first_output, arbitrary_remaining, cmd_error, input_count, the
+parameter cursor, the matched entry, cmd_raw, stale bytes of the input buffer beyond the pending
+data, the event history — is unconstrained.
+-/
 import ScpiVerif.Model.Ctx
-import ScpiVerif.Spec.Message
+import ScpiVerif.Lemmas.Isolation
+
 namespace ScpiVerif.Props.C09
+open ScpiVerif ScpiVerif.Ctx ScpiVerif.Lexer
+
+def SameQueue (q1 q2 : Fifo.EQ) : Prop :=
+  Fifo.Inv q1.fifo ∧ Fifo.Inv q2.fifo ∧ q1.fifo.size = q2.fifo.size ∧ Fifo.EQ.abs q1 = Fifo.EQ.abs q2
+
+/-- same register file and queue bookkeeping (the callback logs kept in the model for other properties are history, not state) -/
+def SameRegs (r1 r2 : Regs.St) : Prop := r1.regs = r2.regs ∧ r1.qn = r2.qn ∧ r1.cap = r2.cap
+
+def Rel (c1 c2 : Ctx) : Prop :=
+  c1.cmds = c2.cmds ∧ c1.choices = c2.choices ∧ c1.withInfo = c2.withInfo ∧
+  c1.bufLen = c2.bufLen ∧ c1.buf.length = c1.bufLen ∧ c2.buf.length = c2.bufLen ∧
+  c1.position = c2.position ∧ c1.position < c1.bufLen ∧ c1.buf.take c1.position = c2.buf.take c2.position ∧
+  SameRegs c1.regs c2.regs ∧ SameQueue c1.eq c2.eq
+
+/-- what one call makes observable: new events (handler invocations with effective headers, every
+parameter delivered, every error queued, the message parsed, the call's return value), new output
+bytes, new flushes -/
+def newObs (c c' : Ctx) : List Ev × Bytes × Nat :=
+  (c'.events.drop c.events.length, c'.out.written.drop c.out.written.length, c'.out.flushes - c.out.flushes)
+
+/-- one input call on related contexts: same observations, and the results are related again -/
+theorem input_noninterference (c1 c2 : Ctx) (h : Rel c1 c2) (data : Bytes) :
+    newObs c1 (input c1 data) = newObs c2 (input c2 data) ∧ Rel (input c1 data) (input c2 data) :=
+  Lemmas.Isolation.input_noninterference c1 c2 h data
+
+/-- Full statement: for ANY stream of chunks (messages that fail midway, leave blocks unfinished or end
+in an incomplete unit included), a context that has been through any history behaves exactly like a
+fresh one that was given the same registers, error queue and pending input -/
+theorem stream_noninterference (c1 c2 : Ctx) (h : Rel c1 c2) (chunks : List Bytes) :
+    newObs c1 (chunks.foldl input c1) = newObs c2 (chunks.foldl input c2) ∧
+    Rel (chunks.foldl input c1) (chunks.foldl input c2) :=
+  Lemmas.Isolation.stream_noninterference c1 c2 h chunks
+
+/-- inside a message, the only state a unit inherits from the units before it is whether one of them
+has responded (first_output) and the reference header for compound commands: processCommand resets
+the rest -/
+theorem unit_reset (c : Ctx) :
+    let c' := { c with cmdError := true, inputCount := 7, out := { c.out with outputCount := 5, arbRemaining := 9 } }
+    newObs c (processCommand c).1 = newObs c' (processCommand c').1 ∧
+    (processCommand c).2 = (processCommand c').2 :=
+  Lemmas.Isolation.unit_reset c
+
 end ScpiVerif.Props.C09
